@@ -65,4 +65,6 @@ def panel (f : Feat) : Panel :=
     prog := prog f,
     ctrl := .uc (Uc.por WIDTH HEIGHT 4 9 false) }
 
+attribute [driver_simp] W WLow colorsByte sendResolution updateVcom init updateFrame displayFrame prog
+
 end EpdVerif.Drivers.Epd5in65f
